@@ -170,3 +170,71 @@ func verifHarness_C10_messageSetMutation() {
 	}
 	vReach()
 }
+
+// C10 P-unit on the decoder primitives themselves: every primitive on an arbitrary 12-byte
+// buffer (every byte free, so 10-byte varints with any high bits are included): no panic, no
+// input-controlled allocation, and the read position never leaves the buffer.
+func verifHarness_C10_primitives() {
+	vConfig("hang", 1)
+	L := 12
+	if vTier() > 0 {
+		L = 16
+	}
+	buf := vBytes("buf", L)
+	vAllocLimit(vMax(L, 16))
+	rd := &realDecoder{raw: buf}
+	rd.off = vChoose("startOffset", 3) // primitives are called at any position
+	var err error
+	switch vChoose("primitive", 20) {
+	case 0:
+		_, err = rd.getCompactString()
+	case 1:
+		_, err = rd.getCompactNullableString()
+	case 2:
+		_, err = rd.getCompactBytes()
+	case 3:
+		_, err = rd.getCompactArrayLength()
+	case 4:
+		_, err = rd.getCompactInt32Array()
+	case 5:
+		_, err = rd.getString()
+	case 6:
+		_, err = rd.getNullableString()
+	case 7:
+		_, err = rd.getBytes()
+	case 8:
+		_, err = rd.getVarintBytes()
+	case 9:
+		_, err = rd.getStringArray()
+	case 10:
+		_, err = rd.getInt32Array()
+	case 11:
+		_, err = rd.getInt64Array()
+	case 12:
+		var n int
+		n, err = rd.getArrayLength()
+		if err == nil {
+			vAssert(n >= -1 && n <= rd.remaining(), "array-length-within-remaining")
+		}
+	case 13:
+		_, err = rd.getVarint()
+	case 14:
+		_, err = rd.getUVarint()
+	case 15:
+		_, err = rd.getSubset(int(vInt32("subsetLen")))
+	case 16:
+		_, err = rd.getRawBytes(int(vInt32("rawLen")))
+	case 17:
+		// peek is only ever called with constant non-negative arguments (magic byte lookups)
+		po, pl := int(vInt16("peekOff")), int(vInt16("peekLen"))
+		vAssume(po >= 0 && pl >= 0)
+		_, err = rd.peek(po, pl)
+	case 18:
+		_, err = rd.getEmptyTaggedFieldArray()
+	case 19:
+		_, err = rd.getBool()
+	}
+	vAssert(rd.off >= 0 && rd.off <= len(buf), "read-position-stays-inside-the-buffer")
+	_ = err
+	vReach()
+}
